@@ -68,9 +68,20 @@ func lucky(r *mc.Run) {
 			r.Evals++
 		}
 	}
+	type luckyCfg struct{ capN, L, nOff int }
+	var cfgs []luckyCfg
 	for capN := 1; capN <= maxCap; capN++ {
+		cfgs = append(cfgs, luckyCfg{capN, capN + 2, nOff})
+	}
+	// long histories: more than cap samples on both sides of a reset
+	cfgs = append(cfgs, luckyCfg{1, 4, 3}, luckyCfg{2, 6, 2})
+	if r.Thorough() {
+		cfgs = append(cfgs, luckyCfg{3, 8, 1})
+	}
+	for _, cfg := range cfgs {
+		capN, nOff := cfg.capN, cfg.nOff
 		for pick := 1; pick <= capN+1; pick++ {
-			L := capN + 2
+			L := cfg.L
 			idx := make([]int, L)
 			for i := range idx {
 				idx[i] = i
@@ -312,6 +323,6 @@ func TestCheck(t *testing.T) {
 		r.Extra["n_states"] = r.Distinct
 		r.Sample(luckyIn{3, 2, []int{0, 2, 1, 0, 2}, []int{3, 0, 4, 1, 2}, 2})
 		r.Sample(ntIn{[]int{1, 0, 4}, []int{0, 0, 2, 0}, "epoch"})
-		r.Extra["rule"] = "lucky packet: capacities 1..3 (4), pick 1..cap+1, histories of cap+2 samples over 3 offsets x all delay-rank permutations x reset at every position (or none), compared with the reference model after every sample; Ntimed: all H1 (<=3 (4) samples) x H2 (4 samples) over 9 (16) sample kinds x {explicit reset, epoch change} against a fresh filter on H2, plus all histories of 6 (7) samples for the raw-output rules; distinct = distinct histories"
+		r.Extra["rule"] = "lucky packet: capacities 1..3 (4), pick 1..cap+1, histories of cap+2 samples over 3 offsets x all delay-rank permutations x reset at every position (or none), plus histories of 2*cap+2 samples for cap 1 and 2 (3 thorough) so that more than cap samples lie on both sides of a reset, compared with the reference model after every sample; Ntimed: all H1 (<=3 (4) samples) x H2 (4 samples) over 9 (16) sample kinds x {explicit reset, epoch change} against a fresh filter on H2, plus all histories of 6 (7) samples for the raw-output rules; distinct = distinct histories"
 	})
 }
